@@ -6,7 +6,7 @@ V = os.path.abspath(os.path.join(os.path.dirname(__file__), ".."))
 NOTE = ("Trusted: Coq 8.16.1 kernel/coqc and vm_compute (no native_compute); no axioms (Print Assumptions of every property "
         "theorem is checked to be 'Closed under the global context' on every run; the one exception is Props/C03float.v, which uses Flocq over Coq's reals "
         "and depends on the standard library's ClassicalDedekindReals.sig_forall_dec, sig_not_dec, FunctionalExtensionality.functional_extensionality_dep and Classical_Prop.classic); the translators py2gallina.py (arithmetic kernel), py2gallina_cache.py (cache decisions), "
-        "py2gallina_revise.py (recursion of ReviseAnno over data frames: its table of pandas idioms), py2gallina_guards.py (refusal guards as boolean functions), py2gallina_reader.py (loading protocol of DensityData over symbolic file names), py2gallina_writers.py (writers of the intermediates as file-action lists), py2gallina_store.py (constructor of the density store over h5py's require_dataset), py2gallina_overlap.py (the loop that fills the overlap arrays, as an assignment log), py2gallina_merge.py (recogniser of MergeData's summation: parameter sets, slices, labels, the triple loop, as a density-array log), py2gallina_lookup.py (get_specific_slice, its verifications and index dictionaries over the label lists), py2gallina_jobs.py (the file names carried by the job and result tuples to the readers of the density stage), py2gallina_pair.py (DensityData._pair_by_chromosome statement by statement: dicts as association lists, sets as distinct elements, list(s)[0] as an oracle) and py2gallina_cf.py (queue/event loops as interaction programs); the "
+        "py2gallina_revise.py (recursion of ReviseAnno over data frames: its table of pandas idioms), py2gallina_guards.py (refusal guards as boolean functions), py2gallina_reader.py (loading protocol of DensityData over symbolic file names), py2gallina_writers.py (writers of the intermediates as file-action lists), py2gallina_store.py (constructor of the density store over h5py's require_dataset), py2gallina_overlap.py (the loop that fills the overlap arrays, as an assignment log), py2gallina_merge.py (recogniser of MergeData's summation: parameter sets, slices, labels, the triple loop, as a density-array log), py2gallina_lookup.py (get_specific_slice, its verifications and index dictionaries over the label lists), py2gallina_jobs.py (the file names carried by the job and result tuples to the readers of the density stage), py2gallina_pair.py (DensityData._pair_by_chromosome statement by statement: dicts as association lists, sets as distinct elements, list(s)[0] as an oracle), py2gallina_flow.py (failure propagation: every def of the pipeline modules and the __main__ block as try/except/finally/with/loop skeletons; polls of a queue and the tolerated setrlimit failure are not failures; an uncaught exception of the main block is a non-zero exit status; an exception in a pool worker is re-raised by map) and py2gallina_cf.py (queue/event loops as interaction programs); the "
         "correspondence harness (generators, drivers, abstraction, float rule); CPython/pandas/numpy/h5py. "
         "Modelled, not verified: int32/float32 narrowing, pandas/h5py semantics (tied by execution).")
 
@@ -72,7 +72,7 @@ CHECKS = {
     "C11": dict(
         technique="Coq proof (invariant of a labelled transition system, induction over schedules, any k) + _ProgressBars.handle_chrome translated from /repo on every run into an interaction program and proved in lockstep with the model under every schedule + deterministic-scheduler replay on the real class",
         text="Theorems c11_all_collected/never_more/terminates for every number of results and every interleaving; c11_code_refines_model/all_collected/never_more/terminates: the same statements about "
-             "handle_chrome (+ _pop, _collect) as translated from the current sources; legacy loop refuted (c11_legacy_refuted); the check also builds the translated cache decisions (_filter_jobs: every job is completed or to do) and Props/C05code.v (one merge job per overlap result, computed or reused, naming the same three files). "
+             "handle_chrome (+ _pop, _collect) as translated from the current sources; legacy loop refuted (c11_legacy_refuted); the check also builds the translated cache decisions (_filter_jobs: every job is completed or to do) and Props/C05code.v (one merge job per overlap result, computed or reused, naming the same three files) and Props/C17code.v (no function of the overlap stage swallows a failed hand-over of a result). "
              "Schedules enumerated from the model are replayed on the real _ProgressBars (instrumented queue/event, no hook) and compared with the model; CLI runs with many chromosomes count result files. "
              "Modelled: atomic steps = flag test, pop(+append), put, set; the GIL / Manager proxies / pool teardown are not modelled.",
         design="DESIGN.md 6 C11"),
@@ -87,8 +87,8 @@ CHECKS = {
         design="DESIGN.md 6 C12"),
     "C17": dict(
         category="proof",
-        technique="Coq proof (a failed run leaves a crash state; any number of failed runs then a clean run = clean outcome or error) + writers and the overlap error path translated from /repo on every run + fault injection (ENOSPC / worker exceptions) on the real command line",
-        text="Theorem c17_code_overlap_error_path: after an exception anywhere in the overlap calculation the partial file is removed, the final name untouched or complete, and the exception raised again (code as translated); c17_rerun/c17_faults over Model/Cache.v. The first sentence of C17 (a failing step gives a non-zero exit status) is the model's assumption, not a theorem: it is checked on every run by raising OSError(ENOSPC) at every "
+        technique="Coq proof (a failed run leaves a crash state; any number of failed runs then a clean run = clean outcome or error) + writers and the overlap error path translated from /repo on every run + the failure-propagation skeleton of every function of the pipeline modules and of the main block translated from /repo on every run and checked against two criteria whose meaning is proved for every execution (no handler / finally / __exit__ swallows an exception) + fault injection (ENOSPC / worker exceptions) on the real command line",
+        text="Theorem c17_code_overlap_error_path: after an exception anywhere in the overlap calculation the partial file is removed, the final name untouched or complete, and the exception raised again (code as translated); c17_rerun/c17_faults over Model/Cache.v. The first sentence of C17 (a failing step gives a non-zero exit status): c17_code_nothing_swallowed / c17_code_failure_is_reported (Props/C17code.v) - in every execution of the big-step semantics of Model/Flow.v, a function of the pipeline modules (167 defs) or the main block ends normally only if every statement it executed completed: no except clause (other than polls of a queue and the tolerated setrlimit failure), finally clause, context manager or sys.exit(<possibly zero>) turns a failure into a normal end (noswallow_sound, by mutual induction over derivations); trusted there: an uncaught exception of the main block is a non-zero exit status, pool.map re-raises a worker's exception. It is also checked on every run by raising OSError(ENOSPC) at every "
              "create/write/close/rename of every intermediate and result file and RuntimeError in per-gene overlap steps and merge tasks, in the main process and in pool workers, singly and in pairs. "
              "Then as C12: atomic intermediates, crash-state membership, re-run against model and uninterrupted run.",
         design="DESIGN.md 6 C17"),
@@ -121,7 +121,7 @@ CHECKS = {
         design="DESIGN.md 6 C16"),
     "C18": dict(
         technique="Coq proof (rejection for every row position and surrounding content; results only after all checks) + check_strand and _validate_split translated from /repo on every run and proved equal to the model's checks + malformed-input stream",
-        text="Theorems c18_dup/strand/column/chroms/no_result over the model of the import checks (any position of the offending row); c18_code_check_strand / c18_code_validate_split: the code's strand whitelist and chromosome check, as translated, "
+        text="Theorems c18_dup/strand/column/chroms/no_result over the model of the import checks (any position of the offending row); c18_code_results_after_validation (Props/C17code.v): in every execution of the translated main block, whatever fails, a density job - the only writer of result files - starts only after PreProcessor.process (import, validation, split) and the overlap stage have completed (flow_sound); c18_code_check_strand / c18_code_validate_split: the code's strand whitelist and chromosome check, as translated, "
              "are the model's (the translator also checks that import_filtered_genes calls check_strand and indexes by Gene_Name with verify_integrity=True); one defect inserted at first/last/random (thorough: every) row position "
              "of generated pairs through the real library stages (gene-side defects also in an output directory where the valid pair was processed before, files edited in place with older mtimes) and a sample through the CLI: must raise / exit non-zero with no <genome>_<chrom>.h5 written.",
         design="DESIGN.md 6 C18"),
